@@ -161,7 +161,7 @@ std::string check_sinks(const FormatCase &k, Case &c, bool &nontrivial) {
         if (!fp) throw std::runtime_error("open_memstream failed");
         // however the call ends, the FILE* must be usable by another thread afterwards (a stdio lock taken and not released would block it forever)
         auto left_locked = [&] { bool busy = false; std::thread t([&] { if (ftrylockfile(fp) == 0) funlockfile(fp); else busy = true; }); t.join(); return busy; };
-        if (verif::g_file_error_pre) (void)fgetc(fp);      // a stray read on the write-only stream: its error indicator is set before ST::printf starts; the bytes must come out all the same
+        if (verif::g_file_error_pre) fp->_flags |= 0x20;      // glibc's _IO_ERR_SEEN: the stream's error indicator is already set (an earlier, unrelated failure) when ST::printf starts; the bytes must come out all the same
         try { with_args(args, [&](const auto &...x) { ST::printf(fp, fs, x...); }); }
         catch (...) { bool busy = left_locked(); fclose(fp); free(mb); if (busy) throw std::runtime_error("ST::printf threw and left the FILE* locked: a later writer on another thread would block forever"); throw; }
         if (left_locked()) { fclose(fp); free(mb); throw std::runtime_error("ST::printf returned and left the FILE* locked: a later writer on another thread would block forever"); }
